@@ -123,6 +123,7 @@ func c10HistText(d int, minimal bool) string {
 
 func runC10Hist(c map[string]interface{}) []Event {
 	minimal := (len(arr(c["ops"]))+int(seed()))%2 == 1
+	probes := (len(arr(c["ops"]))+int(seed()))%3 == 0 // every third history: failing calls before each recorded call
 	var srs []*proj.SR
 	var srDef []int
 	for _, d := range arr(c["named"]) {
@@ -175,6 +176,14 @@ func runC10Hist(c map[string]interface{}) []Event {
 			} else {
 				var x, y float64
 				var err error
+				if probes {
+					// calls that (mostly) fail - an undefined and an absurd position - come first; whatever they return, the
+					// call that follows must still answer as a fresh transformer does
+					e["probe"] = safely(func() {
+						tfs[a-1](math.NaN(), math.NaN())
+						tfs[a-1](1e30, -1e30)
+					})
+				}
 				out := safely(func() { x, y, err = tfs[a-1](px, py) })
 				e["res"] = internXY(x, y, err, out)
 				e["panicked"] = out != "ok"
